@@ -370,7 +370,7 @@ def decode_product(prog: Program) -> RuleResult:
                 tag_calls = [
                     c
                     for c in calls_in(l.iter)
-                    if isinstance(c.func, ast.Attribute) and c.func.attr in ("infos", "info") and _rooted_at_sub(c.func.value, "table")
+                    if isinstance(c.func, ast.Attribute) and c.func.attr in ("infos", "info") and not c.args
                 ]
                 if tag_calls:
                     tag_loops.append((l, tag_calls))
